@@ -233,7 +233,7 @@ func main() {
 			b, _ := json.MarshalIndent(History{Seed: 1000 + int64(i), Modules: []string{"eth", "bsc"}, Ops: sc}, "", " ")
 			name := []string{"A-C13-1-withdraw-after-maturity", "B-C13-1-withdraw-before-maturity", "C-C13-2-add-delegate-after-removal",
 				"D-validator-slashed-then-redelegate-removal-withdraw", "E-two-live-batches-older-executed",
-				"F-export-import-with-offline-oracles"}[i]
+				"F-export-import-with-offline-oracles", "H-edit-bridger-to-offline-oracles-bridger"}[i]
 			lib.Must(os.WriteFile(filepath.Join(corpusDir, name+".json"), b, 0o644))
 		}
 	}
@@ -420,5 +420,16 @@ func scripted() [][]Op {
 	f = append(f, confirmAll(3, 3)...)
 	f = append(f, Op{K: "exportimport", M: 0}, Op{K: "block", Dt: mature}, Op{K: "block"},
 		Op{K: "unbond", M: 0, A: 0}, Op{K: "add", M: 0, A: 3, Amt: fx(9000)}, Op{K: "block"})
-	return [][]Op{a, b, c, d, e, f}
+	// H: oracle 3 does not sign and is taken offline, oracle 0 is removed by governance; online oracles try to take the
+	//    bridger of each of them, of an online oracle, their own, an oracle address, a free one; then 3 returns, 0 withdraws
+	h := setup()
+	h = append(h, confirmAll(1, 3)...)
+	h = append(h, Op{K: "block"}, Op{K: "block"}, Op{K: "block"})
+	h = append(h, confirmAll(2, 3)...)
+	h = append(h, Op{K: "gov", M: 0, L: []int{1, 2, 3, 4, 5, 6}},
+		Op{K: "edit", M: 0, A: 1, B: 103}, Op{K: "edit", M: 0, A: 2, B: 100}, Op{K: "edit", M: 0, A: 4, B: 105},
+		Op{K: "edit", M: 0, A: 4, B: 104}, Op{K: "edit", M: 0, A: 5, B: 6}, Op{K: "edit", M: 0, A: 6, B: 108},
+		Op{K: "edit", M: 0, A: 3, B: 109}, // offline: refused
+		Op{K: "add", M: 0, A: 3, Amt: fx(9000)}, Op{K: "block", Dt: mature}, Op{K: "block"}, Op{K: "unbond", M: 0, A: 0}, Op{K: "block"})
+	return [][]Op{a, b, c, d, e, f, h}
 }
